@@ -62,6 +62,10 @@ def generate(prop: str, only=None) -> Result:
             continue
         if only and only not in q:
             continue
+        if getattr(c, "thorough_only", False) and tier != "thorough" and not only:
+            # a kernel whose obligations take minutes: part of the thorough tier (and of explicit --only runs)
+            col.assumptions.add(f"{q}: verified in the thorough tier only (solver time); not part of this quick run")
+            continue
         try:
             k = extract.find_kernel(q)
         except extract.ExtractionError as e:
